@@ -241,16 +241,26 @@ def _observe_zero(case):
 
 # ------------------------------------------------------------------ trace-monitor part: boundedness
 def _load(poles):
-    s = F(0)
-    for p in poles:
-        v = [F(*q) for q in p["v"]]
-        s += (v[2] * v[0] ** 2 / (4 - v[0] ** 2)) if p["ptype"] == "lorentz" else (v[0] ** 2 / 4)
-    return s
+    """largest per-axis sum of Nyquist loads, or None when a coupling axis has omega_0*dt >= 2 (placement must reject it)"""
+    worst = F(0)
+    for i in range(3):
+        s = F(0)
+        for p in poles:
+            v = [F(*q) for q in p["ax"][i]]
+            k = (v[2] * v[0] ** 2) if p["ptype"] == "lorentz" else v[0] ** 2
+            w2 = v[0] ** 2 if p["ptype"] == "lorentz" else F(0)
+            if k != 0 and w2 >= 4:
+                return None
+            if k != 0:
+                s += k / (4 - w2)
+        worst = max(worst, s)
+    return worst
 
 
 def _bounded_case(tag, poles, eps, cf):
-    margin = (F(*eps) - _load(poles)) / (F(*cf) ** 2)
-    if abs(margin - 1) < F(1, 100):     # too close to the coupled limit: neither verdict would be meaningful
+    load = _load(poles)
+    margin = None if load is None else (F(*eps) - load) / (F(*cf) ** 2)
+    if margin is not None and abs(margin - 1) < F(1, 100):     # too close to the coupled limit: neither verdict would be meaningful
         return None
     return {"id": f"b-{tag}-eps{eps[0]}_{eps[1]}-cf{cf[0]}_{cf[1]}", "kind": "bounded", "poles": poles, "eps": list(eps), "cf": list(cf), "seed": 1}
 
@@ -259,6 +269,7 @@ def _quick_media(L, Dr):
     """(tag, poles, [(cf, eps), ...]).  The multi-pole media sit on BOTH sides of the coupled bound in places where only the
     SUM over the poles decides (each pole alone - or the mean load - would be inside)."""
     C99, C9, C5, E1, E2 = R(99, 100), R(9, 10), R(1, 2), R(1), R(2)
+    LA = lambda axes: _pole("lorentz", None, "axes", axes=axes)  # noqa: E731
     dru34 = [Dr(R(3, 4), R(1, 100)), Dr(R(3, 4), R(1, 50))]                                    # loads 9/64 + 9/64
     mix3 = [L(R(1, 2), R(1, 100), R(2)), Dr(R(1, 2), R(1, 100)), Dr(R(1, 2), R(1, 10))]        # 2/15 + 1/16 + 1/16
     dru12 = [Dr(R(1, 2), R(1, 100)), Dr(R(1, 2), R(1, 50))]                                    # 1/16 + 1/16
@@ -273,7 +284,15 @@ def _quick_media(L, Dr):
             ("twoDru34", dru34, [(C9, E1), (C5, E1)]),          # outside at 0.9 (0.81 > 1 - 9/32), inside at 0.5
             ("mix3", mix3, [(C9, E1), (C99, E2)]),              # outside at 0.9 (0.81 > 1 - 31/120), inside for eps 2
             ("twoDru12", dru12, [(C9, E1)]),                    # inside at 0.9 (0.81 <= 1 - 1/8)
-            ("mild3", mild3, [(C9, E1)])]                       # inside at 0.9
+            ("mild3", mild3, [(C9, E1)]),                       # inside at 0.9
+            # omega_0*dt >= 2: placement must reject these with an error (if it ever accepts one silently it must stay bounded)
+            ("lorW2", [L(R(2), R(1, 100), R(1))], [(C5, E1)]),
+            ("lorW25", [L(R(5, 2), R(1, 100), R(1, 2))], [(C99, E1), (C5, E2)]),
+            ("lorW4", [L(R(4), R(1, 10), R(1, 4))], [(C5, E1)]),
+            ("axesW25", [LA([(R(3, 10), R(1, 100), R(1)), (R(3, 10), R(1, 100), R(1)), (R(5, 2), R(1, 100), R(1))])], [(C5, E1)]),
+            ("twoW25", [L(R(3, 10), R(1, 100), R(1)), L(R(5, 2), R(1, 100), R(1, 2))], [(C5, E1)]),
+            # control: the axis beyond the limit is switched off (strength 0): exempt, accepted, bounded
+            ("axesExempt", [LA([(R(3, 10), R(1, 100), R(1)), (R(3, 10), R(1, 100), R(1)), (R(5, 2), R(1, 100), R(0))])], [(C5, E1)])]
 
 
 def _media(quick, rng):
@@ -296,6 +315,9 @@ def _media(quick, rng):
         n = 2 + k % 2
         out.append((f"multi{k}", [Dr(rng.choice([R(1, 2), R(3, 4), R(1)]), rng.choice([R(1, 100), R(1, 20)])) if rng.random() < 0.5
                                   else L(rng.choice([R(1, 2), R(1)]), rng.choice([R(0), R(1, 100)]), rng.choice([R(1, 2), R(1), R(2)])) for _ in range(n)]))
+    for w in (R(2), R(9, 4), R(5, 2), R(4)):       # beyond the uncoupled limit: must be rejected
+        out.append((f"beyond{w[0]}_{w[1]}", [L(w, R(1, 100), R(1, 2))]))
+        out.append((f"beyond2p{w[0]}_{w[1]}", [Dr(R(1, 5), R(1, 100)), L(w, R(0), R(1, 4))]))
     return [(t, p, None) for t, p in out] + [(t + "-q", p, None) for t, p, _ in _quick_media(L, Dr)[7:]]
 
 
@@ -310,7 +332,7 @@ def _observe_bounded(case):
     eps = case["eps"][0] / case["eps"][1]
     out, msgs, raised = _build([4, 4, 4], cf, MIN_STEPS, [{"lo": [0, 0, 0], "hi": [4, 4, 4], "eps": eps, "poles": case["poles"]}])
     accepted = out is not None and not msgs
-    rec = {"id": case["id"], "kind": "bounded", "poles": [{"ptype": p["ptype"], "v": p["v"]} for p in case["poles"]], "eps": case["eps"], "cf": case["cf"],
+    rec = {"id": case["id"], "kind": "bounded", "poles": [{"ptype": p["ptype"], "ax": p["ax"]} for p in case["poles"]], "eps": case["eps"], "cf": case["cf"],
            "accepted": bool(accepted), "raised": raised, "nwarn": len(msgs), "first_warning": (msgs[0] if msgs else ""), "min_steps": MIN_STEPS, "limit": LIMIT,
            "ratio": 0, "steps": 0}
     if not accepted:
@@ -385,6 +407,7 @@ def run(ctx):
         ctx.mc("Ade", "MC_Ade_q.cfg" if ctx.quick else "MC_Ade_t.cfg", workers=4, label="one cell, 2 pole slots (none / Lorentz / Drude / CCPR with c4), every drive sequence of length <= MaxT, inv_eps in {1, 1/2}")
         ctx.mc_negative("Ade", "MC_Ade_neg.cfg", workers=2)     # c3 multiplies E^{n+1}
         ctx.mc_negative("Ade", "MC_Ade_neg2.cfg", workers=2)    # P_prev not advanced
+        ctx.mc_negative("Disp", "MC_Disp_neg4.cfg", workers=2)  # acceptance rule: axis_active with `and` lets omega_0*dt >= 2 through
     else:
         ctx.notes.append("model checking of Ade.tla skipped (VERIF_SKIP_MC=1)")
     rng = random.Random(ctx.seed)
